@@ -10,7 +10,7 @@ namespace AIToolbox::Factored {
         // The output function will have the domain of both inputs.
         retval.tag = merge(lhs.tag, rhs.tag);
 
-        retval.values.resize(toIndexPartial(retval.tag, space, space));
+        retval.values.resize(factorSpacePartial(retval.tag, space));
         // No need to zero fill
 
         PartialFactorsEnumerator e(space, retval.tag);
@@ -31,7 +31,7 @@ namespace AIToolbox::Factored {
         // The output function will have the domain of both inputs.
         retval.tag = merge(lhs.tag, rhs.tag);
 
-        retval.values.resize(toIndexPartial(retval.tag, space, space));
+        retval.values.resize(factorSpacePartial(retval.tag, space));
         // No need to zero fill
 
         PartialFactorsEnumerator e(space, retval.tag);
@@ -52,7 +52,7 @@ namespace AIToolbox::Factored {
         // The output function will have the domain of both inputs.
         retval.tag = merge(lhs.tag, rhs.tag);
 
-        retval.values.resize(toIndexPartial(retval.tag, space, space));
+        retval.values.resize(factorSpacePartial(retval.tag, space));
         // No need to zero fill
 
         PartialFactorsEnumerator e(space, retval.tag);
